@@ -9,4 +9,5 @@ def check(ctx, rep):
     cache.cache_4(ctx, rep, roles)
     # an unbound local in a handler or clean-up path raises UnboundLocalError, which no OSError handler absorbs
     dar.da_rule(ctx, rep, ['parso/cache.py'])
+    cache.cache_6_7(ctx, rep)
     rep.note('Not decided: "returns the tree of the current content"; the in-use clause of clean-up (atime based).')
